@@ -16,7 +16,10 @@ lp = dprops.mine_looped(w)
 json.dump(lp, open(os.path.join(facts.VERIF, 'rules', 'looped.json'), 'w'), indent=1)
 bf = dprops.mine_boundflow(w)
 json.dump(bf, open(os.path.join(facts.VERIF, 'rules', 'boundflow.json'), 'w'), indent=1)
-from analysis.props import c11
+from analysis.props import c11, c10
+nest = c10.mine_nesting(w, 'default') + c10.mine_nesting(World('devcurves'), 'devcurves')
+json.dump(nest, open(os.path.join(facts.VERIF, 'rules', 'nesting.json'), 'w'))
+print('nesting profiles', len(nest))
 uc = c11.unchecked_callers(w)
 for k, v in c11.unchecked_callers(World('devcurves')).items():
     uc.setdefault(k, set()).update(v)
